@@ -77,6 +77,11 @@ def load_findings():
 
 def _match(match, signature):
     for k, v in match.items():
+        if k.endswith("__contains"):
+            sv = signature.get(k[: -len("__contains")])
+            if not isinstance(sv, (list, tuple, set)) or not set(v) <= set(sv):
+                return False
+            continue
         if k.endswith("__subset"):
             sv = signature.get(k[: -len("__subset")])
             if not isinstance(sv, (list, tuple, set)) or not set(sv) <= set(v):
